@@ -66,8 +66,8 @@ ModelGather(m, ss) ==
 SameDType(ev, reg) ==      \* the common dtype of the polynomial operands, if there is one
   LET ds == {reg[ev.args[i]].v.dtype : i \in 1..Len(ev.args)}
   IN IF Cardinality(ds) = 1 THEN CHOOSE d \in ds : TRUE ELSE ""
-OperandNames(ev, reg) ==
-  UNION {IF reg[ev.args[i]].v.kind = "poly" THEN RangeOf(reg[ev.args[i]].v.names) ELSE {} : i \in 1..Len(ev.args)}
+OperandNames(ev, reg) ==        \* a plain number / array among the operands becomes a polynomial in q0 (as in JAlign)
+  UNION {IF reg[ev.args[i]].v.kind = "poly" THEN RangeOf(reg[ev.args[i]].v.names) ELSE {0} : i \in 1..Len(ev.args)}
 JMove(ev, reg, opts) ==
   LET ds == [i \in 1..Len(ev.args) |-> reg[ev.args[i]].d]
       ss == [i \in 1..Len(ev.args) |-> ds[i].shape]
